@@ -250,6 +250,11 @@ func (f *defaultFactory) doCreateComponent(name string, meta *component_definiti
 }
 
 func (f *defaultFactory) populateComponent(name string, meta *component_definition.Meta) error {
+	//every creation attempt resolves its candidates afresh: drop what an earlier (failed)
+	//attempt left on the definition, otherwise the processors append to it again
+	for _, node := range meta.GetComponentProperties() {
+		node.Injects = nil
+	}
 	err := f.postProcessorRegistrationDelegate.ResolveAfterInstantiation(meta, name)
 	if err != nil {
 		return err
